@@ -423,6 +423,7 @@ func TestVerifC05(t *testing.T) {
 	c05Bubble(t, func() { c05DialPeerStaleExit(out) })
 	c05Bubble(t, func() { c05DialPeerSendCancel(out) })
 	c05Bubble(t, func() { c05DialPeerDnsaddrTwice(out) })
+	c05Bubble(t, func() { c05DialPeerFallbackTransport(out) })
 	for i := 0; i < nd; i++ {
 		size := 6 + r.Intn(30)
 		c05Bubble(t, func() { c05DialPeerRandom(out, r, size) })
